@@ -16,6 +16,7 @@ CONSTANTS
   LineSet = {"endif"}
   MaxD = 1
   AtomSet = {"0", "1", "m1", "2", "63", "64", "imax", "imin", "umax", "p31", "p32m", "p63x", "0u", "1u", "63u", "defD", "U", "E"}
+  GapSet = {"sp"}
   OpSet = {"u-", "u~", "u!", "u+", "*", "/", "%", "+", "-", "<<", ">>", "<", "<=", ">", ">=", "==", "!=", "&", "^", "|", "&&", "||", "?:"}
 INIT Init
 NEXT Next
